@@ -31,7 +31,8 @@ import (
 var methods = map[string]bool{}
 
 func init() {
-	for _, m := range strings.Fields(`CreateAuthRequest AuthRequestByID AuthRequestByCode SaveAuthCode DeleteAuthRequest
+	for _, m := range strings.Fields(`TerminateSessionFromRequest GetPrivateClaimsFromRequest VerifyExchangeSubjectToken
+		VerifyExchangeActorToken JWTProfileTokenType CreateAuthRequest AuthRequestByID AuthRequestByCode SaveAuthCode DeleteAuthRequest
 		CreateAccessToken CreateAccessAndRefreshTokens TokenRequestByRefreshToken TerminateSession GetRefreshTokenInfo RevokeToken
 		SigningKey SignatureAlgorithms KeySet GetClientByClientID AuthorizeClientIDSecret SetUserinfoFromScopes SetUserinfoFromToken
 		SetIntrospectionFromToken GetPrivateClaimsFromScopes GetKeyByIDAndClientID ValidateJWTProfileScopes Health SetUserinfoFromRequest
@@ -351,9 +352,18 @@ func guarded(f func()) (panicked string, hung bool) {
 // warm: the whole flow (preparation + request) is first served once, fault free, by the same
 // provider instance, and prepared again (fresh code / tokens), so that anything the library
 // keeps between requests is populated before the fault is injected.
-func run(fl flow, r opfix.Router, in incid, p plan, warm bool) (o obs, prepErr string) {
+func run(fl flow, r opfix.Router, sv string, in incid, p plan, warm bool) (o obs, prepErr string) {
 	st := opfix.NewStd()
-	f, err := opfix.New(st, opfix.Options{})
+	var f *opfix.Fixture
+	var err error
+	switch sv { // which optional storage interfaces the provider sees
+	case "SMax":
+		f, err = opfix.NewWithIssuerStorage(st, opfix.Options{}, op.StaticIssuer(opfix.Issuer), func(op.Storage) op.Storage { return st.AsMaxStorage() })
+	case "SMin":
+		f, err = opfix.NewWithIssuerStorage(st, opfix.Options{}, op.StaticIssuer(opfix.Issuer), func(op.Storage) op.Storage { return st.AsMinStorage() })
+	default:
+		f, err = opfix.New(st, opfix.Options{})
+	}
 	if err != nil {
 		return obs{}, err.Error()
 	}
@@ -397,6 +407,7 @@ type job struct {
 type group struct {
 	fl     flow
 	r      opfix.Router
+	sv     string // SStd | SMax | SMin
 	in     incid
 	warm   bool
 	base   job
@@ -451,15 +462,20 @@ func main() {
 			// incidental request values come from the seed; they do not influence the model
 			in := incid{state: word(1 + rnd.IntN(12)), nonce: word(1 + rnd.IntN(12)),
 				verifier: "v" + strings.Repeat("x", 42+rnd.IntN(20)) + fmt.Sprint(rnd.IntN(1000)), user: drv.Pick(rnd, []string{"alice", "bob"})}
-			for _, warm := range []bool{false, true} {
-				groups = append(groups, &group{fl: fl, r: r, in: in, warm: warm})
+			for _, sv := range []string{"SStd", "SMax", "SMin"} {
+				for _, warm := range []bool{false, true} {
+					if warm && sv != "SStd" && cfg.Quick {
+						continue
+					}
+					groups = append(groups, &group{fl: fl, r: r, sv: sv, in: in, warm: warm})
+				}
 			}
 		}
 	}
 	// phase 1: the fault-free runs (they fix the range of k and the methods of each flow)
 	parallel(len(groups), func(i int) {
 		g := groups[i]
-		g.base.o, g.base.perr = run(g.fl, g.r, g.in, plan{}, g.warm)
+		g.base.o, g.base.perr = run(g.fl, g.r, g.sv, g.in, plan{}, g.warm)
 	})
 	// phase 2: every fault plan
 	ks := kinds()
@@ -480,27 +496,30 @@ func main() {
 			}
 		}
 		sort.Strings(ms)
+		std := g.sv == "SStd"
 		first := !firstSeen[g.fl.name]
-		if !g.warm {
+		if !g.warm && std {
 			firstOf[g] = first
 		}
 		for ki := range ks {
 			kd := &ks[ki]
-			if g.warm && !kd.warm {
+			// warm providers and, in the quick tier, the SMax / SMin storages: the three "warm" values
+			reduced := g.warm || (!std && cfg.Quick)
+			if reduced && !kd.warm {
 				continue
 			}
-			if kd.quick || (!cfg.Quick && !g.warm && firstOf[g]) {
+			if kd.quick || (!cfg.Quick && !g.warm && std && firstOf[g]) {
 				for k := 1; k <= len(g.base.o.journal); k++ {
 					g.faults = append(g.faults, &job{p: plan{at: k, kind: kd}, kth: g.base.o.journal[k-1]})
 				}
 			}
-			if kd.method && (!g.warm || (!cfg.Quick && kd.tag == "plain")) {
+			if kd.method && (!reduced || kd.tag == "plain" && (!g.warm || !cfg.Quick)) {
 				for _, m := range ms {
 					g.faults = append(g.faults, &job{p: plan{method: m, raw: seen[m], kind: kd}, kth: m})
 				}
 			}
 		}
-		if g.warm && g.r == opfix.Legacy { // groups come as provider cold, provider warm, legacy cold, legacy warm
+		if g.warm && std && g.r == opfix.Legacy { // groups of a flow end with (legacy, SMin); SStd warm of legacy marks the flow name as seen
 			firstSeen[g.fl.name] = true
 		}
 		for _, j := range g.faults {
@@ -508,15 +527,9 @@ func main() {
 			owner = append(owner, g)
 		}
 	}
-	// coqc cannot print a case id above ~30000 (unary nat): a bigger run could not name its
-	// violating cases, so it is refused here rather than reported as a broken correspondence
-	if len(all)+len(groups) > 29000 {
-		fmt.Fprintf(os.Stderr, "C10: %d cases exceed the id range the case files can report; trim the enumeration\n", len(all)+len(groups))
-		os.Exit(2)
-	}
 	parallel(len(all), func(i int) {
 		g := owner[i]
-		all[i].o, all[i].perr = run(g.fl, g.r, g.in, all[i].p, g.warm)
+		all[i].o, all[i].perr = run(g.fl, g.r, g.sv, g.in, all[i].p, g.warm)
 	})
 	// emission, in the fixed order
 	var skipped []string
@@ -533,7 +546,7 @@ func main() {
 				skipped = append(skipped, fmt.Sprintf("%s %v %s warm=%v %s: %s", g.fl.name, g.fl.tags, g.r, g.warm, p.coq(), j.perr))
 				continue
 			}
-			tags := append([]string{"flow=" + g.fl.name, "router=" + g.r.String(), "warm=" + emit.Bool(g.warm)}, g.fl.tags...)
+			tags := append([]string{"flow=" + g.fl.name, "router=" + g.r.String(), "storage=" + g.sv, "warm=" + emit.Bool(g.warm)}, g.fl.tags...)
 			switch {
 			case p.at > 0:
 				tags = append(tags, "plan=at", fmt.Sprintf("k=%d", p.at), "kind="+p.kind.tag, "method="+j.kth)
@@ -542,14 +555,14 @@ func main() {
 			default:
 				tags = append(tags, "plan=none")
 			}
-			w.Add(emit.Case{Input: emit.Ctor("Req", router, g.fl.coq, emit.Bool(g.warm), p.coq()), Observed: o.coq(), Tags: tags,
+			w.Add(emit.Case{Input: emit.Ctor("Req", router, g.sv, g.fl.coq, emit.Bool(g.warm), p.coq()), Observed: o.coq(), Tags: tags,
 				Human: map[string]any{"status": o.status, "class": o.class, "error": o.oerr, "creds": o.creds, "journal": o.journal, "hit": o.hit, "single": o.single, "panic": o.panicked, "hang": o.hung}})
 			if survey {
 				kt := ""
 				if p.kind != nil {
 					kt = p.kind.tag
 				}
-				fmt.Printf("%-9s %-22s %-36s warm=%v at=%d m=%s kind=%s -> %d %s %q %v hit=%v single=%v %v\n", g.r, g.fl.name, strings.Join(g.fl.tags, ","), g.warm, p.at, p.method, kt, o.status, o.class, o.oerr, o.creds, o.hit, o.single, o.journal)
+				fmt.Printf("%-9s "+g.sv+" %-22s %-36s warm=%v at=%d m=%s kind=%s -> %d %s %q %v hit=%v single=%v %v\n", g.r, g.fl.name, strings.Join(g.fl.tags, ","), g.warm, p.at, p.method, kt, o.status, o.class, o.oerr, o.creds, o.hit, o.single, o.journal)
 			}
 		}
 	}
@@ -560,7 +573,7 @@ func main() {
 		os.Exit(2)
 	}
 	err := w.Close(emit.Meta{Property: "C10", Tier: cfg.Tier, Seed: cfg.Seed, Exhaustive: true,
-		Rule:  "Exhaustive enumeration, not sampled: every flow variant (authorize with a registered and with an unregistered redirect_uri, callback code / id_token / id_token token, token grants code, refresh, client_credentials, jwt-bearer, token-exchange, device; userinfo, introspect, revoke access/refresh incl. JWT access tokens, device authorization, end session, keys, discovery, ready) x both routers x {cold: fresh provider instance; warm: the same instance has served the whole flow once, fault free, before} x {no fault; k-th storage call fails for k = 1..calls of the fault-free run; every call of method m fails for each m of that run} x the VALUE of the failure: plain error, context.DeadlineExceeded, context.Canceled, *oidc.Error (server_error, invalid_request, invalid_client, access_denied, redirect-disabled invalid_request), op.ErrDuplicateUserCode, op.ErrInvalidRefreshToken, each bare and wrapped with %w (20 values: 14 core values for the k-th-call plans of every flow variant, 5 of them for the method plans, 3 on warm providers; thorough adds the response_mode variants, the plain-error method plans on warm providers, and runs the 6 remaining wrapped values on the first variant of each flow; the total is kept below the ~30000 case ids coqc can print). Fresh store and provider per run, fault-free preparation through the fixture, then ResetJournal + fault plan + the request under test, every request under a 10 s time-out. The seed only varies incidental request values (state, nonce, verifier, user). Non-trivial = a fault plan is set (path != 0); distinct = distinct (flow, router, warm, plan).",
+		Rule:  "Exhaustive enumeration, not sampled: every flow variant (authorize with a registered and with an unregistered redirect_uri, callback code / id_token / id_token token, token grants code, refresh, client_credentials, jwt-bearer, token-exchange, device; userinfo, introspect, revoke access/refresh incl. JWT access tokens, device authorization, end session, keys, discovery, ready) x both routers x {SStd: refstore as it is; SMax: every optional storage interface implemented (CanTerminateSessionFromRequest, CanGetPrivateClaimsFromRequest, TokenExchangeTokensVerifierStorage, JWTProfileTokenStorage in addition); SMin: only the grant storages, no CanSetUserinfoFromRequest} x {cold: fresh provider instance; warm: the same instance has served the whole flow once, fault free, before} x {no fault; k-th storage call fails for k = 1..calls of the fault-free run; every call of method m fails for each m of that run} x the VALUE of the failure: plain error, context.DeadlineExceeded, context.Canceled, *oidc.Error (server_error, invalid_request, invalid_client, access_denied, redirect-disabled invalid_request), op.ErrDuplicateUserCode, op.ErrInvalidRefreshToken, each bare and wrapped with %w (20 values: 14 core values for the k-th-call plans of every flow variant, 5 of them for the method plans, 3 on warm providers; thorough adds the response_mode variants, the plain-error method plans on warm providers, and runs the 6 remaining wrapped values on the first variant of each flow; SMax / SMin: the 3 warm values + plain method plans in the quick tier, like SStd in the thorough tier). Fresh store and provider per run, fault-free preparation through the fixture, then ResetJournal + fault plan + the request under test, every request under a 10 s time-out. The seed only varies incidental request values (state, nonce, verifier, user). Non-trivial = a fault plan is set (path != 0); distinct = distinct (flow, router, warm, plan).",
 		Extra: map[string]any{"runs": runs}})
 	if err != nil {
 		fmt.Fprintln(os.Stderr, err)
